@@ -652,7 +652,9 @@ func runRnsHistory(rc *RunCtx) {
 	// 1..3 targeted sequences, interleaved with PRNG steps
 	nseq := 1 + rc.Intn(3)
 	for i := 0; i < nseq; i++ {
-		switch rc.Intn(10) {
+		switch rc.Intn(11) {
+		case 10:
+			g.seqStrangerRelists()
 		case 9:
 			g.seqRecordPath()
 		case 8:
@@ -781,5 +783,47 @@ func (g *rnsGen) seqRecordPath() {
 			}
 		}
 		return true
+	})
+}
+
+// seqStrangerRelists: the owner lists a live name at a real price; somebody else then sends List for the same name with
+// a token price (and, sometimes, Delist); a third account buys. Whatever the purchase goes through must be the listing
+// the owner created.
+func (g *rnsGen) seqStrangerRelists() {
+	var n string
+	g.enqueue(func() bool {
+		v, ok := g.ensureLive()
+		if !ok {
+			return false
+		}
+		n = v
+		o := g.ownerIdx(n)
+		if o < 0 {
+			n = ""
+			return true
+		}
+		if _, listed := g.w.st.Sales[n]; listed {
+			return true
+		}
+		return g.do(o, &rnstypes.MsgList{Creator: g.acc(o), Name: n, Price: sdk.NewInt64Coin(rnsDenomA, int64(1_000_000+g.rc.Intn(9_000_000)))})
+	}, func() bool {
+		if n == "" {
+			return true
+		}
+		st := g.otherThan(g.ownerIdx(n))
+		g.rc.Count("listings_rewritten_by_a_stranger_attempts", 1)
+		if !g.do(st, &rnstypes.MsgList{Creator: g.acc(st), Name: n, Price: sdk.NewInt64Coin(rnsDenomA, int64(1+g.rc.Intn(3)))}) {
+			return false
+		}
+		if g.rc.Chance(0.3) {
+			return g.do(st, &rnstypes.MsgDelist{Creator: g.acc(st), Name: n})
+		}
+		return true
+	}, func() bool {
+		if n == "" {
+			return true
+		}
+		b := g.otherThan(g.ownerIdx(n))
+		return g.do(b, &rnstypes.MsgBuy{Creator: g.acc(b), Name: n})
 	})
 }
